@@ -416,8 +416,8 @@ func (e *c34Env) boundaryCases() []c34Case {
 				default:
 					comps = []string{""}
 				}
-				if !e.c.Thorough() && len(comps) > 1 {
-					comps = []string{comps[pi%len(comps)], comps[(pi*3+1)%len(comps)]}
+				if !e.c.Thorough() && f == "rpm" {
+					comps = []string{comps[pi%len(comps)], comps[(pi*3+1)%len(comps)], comps[(pi*5+2)%len(comps)]}
 				}
 				for _, comp := range comps {
 					out = append(out, c34Case{S: c34WithCompression(base, comp, comp), Format: f, Class: p.Class,
@@ -1553,8 +1553,8 @@ func c34Families(c *Ctx, prop string, seg *c34Seg) (*c34Env, error) {
 	}
 	r := c.R.Fork("c34-random")
 	keep(e.runFamily(prop, "random", "random content lists over a real source tree (files, config types, dirs, symlinks, trees, globs, ghost/doc/licence/readme, packager tags, partial file_info incl. setuid/setgid/sticky, owner, explicit mtime; single-character and nested directory names such as /a/x and /b/, names with spaces and unicode, exact block-size files, occasionally a 300 KiB file) x umask x mtime set/unset x 5 formats x random compression, 1/4 with a random subset of scripts, 1/6 with a changelog (deb, rpm), 1/5 signed (deb debsign/dpkg-sig, rpm, apk). Checked: "+what+c34Common,
-		e.randomCases(r, c.N(60, 900)), seg))
-	keep(e.runFamily(prop, "boundary", "boundary payloads: empty payload, only directories, only symlinks, empty files, single-character directories, unicode names, setuid/owner/mtime overrides, tree+globs, rpm-only types, names longer than 100 and 255 bytes, one file of exactly 1/511/512/513/1023/1024/1025/4095/4096/4097 bytes, all of them together, 300 KiB random, 300 KiB zeros, both (thorough: 3 MiB random, 3 MiB zeros + 1 MiB+1), many small files (40 quick, 200 thorough) x 5 formats x compression (quick: two settings rotating per payload; thorough: every setting). A build error is a finding. Checked: "+what+c34Common,
+		e.randomCases(r, c.N(200, 3000)), seg))
+	keep(e.runFamily(prop, "boundary", "boundary payloads: empty payload, only directories, only symlinks, empty files, single-character directories, unicode names, setuid/owner/mtime overrides, tree+globs, rpm-only types, names longer than 100 and 255 bytes, one file of exactly 1/511/512/513/1023/1024/1025/4095/4096/4097 bytes, all of them together, 300 KiB random, 300 KiB zeros, both (thorough: 3 MiB random, 3 MiB zeros + 1 MiB+1), many small files (40 quick, 200 thorough) x 5 formats x compression (deb: every setting; rpm quick: three settings rotating per payload, thorough: every setting). A build error is a finding. Checked: "+what+c34Common,
 		e.boundaryCases(), seg))
 	keep(e.runFamily(prop, "compression", "every compression setting (deb: \"\", gzip, xz, zstd, none; rpm: \"\", gzip, gzip:1, gzip:9, gzip:-1, xz, lzma, zstd, zstd:1, zstd:19, zstd:fastest) x payload {mixed (mtime set and unset), empty, 300 KiB random + 300 KiB zeros, all exact sizes}. A build error for a setting the schema accepts is a finding. Checked: "+what+c34Common,
 		e.compressionCases(c.R.Fork("c34-compression")), seg))
